@@ -24,7 +24,10 @@ Sc(fam, f, op, pr, ins, nb) == [fam |-> fam, field |-> f, op |-> op, params |-> 
 FScen(f) ==
   { Sc("ff", f, o, <<>>, <<p[1], p[2]>>, <<>>) :
         o \in {"add", "sub", "mul", "div", "is_equal", "is_not_equal", "assert_equal", "assert_not_equal",
-               "addsub", "unnorm_eq", "unnorm_pub", "unnorm_mul", "unnorm_iszero"}, p \in FPairs(f) }
+               "addsub", "unnorm_eq", "unnorm_pub", "unnorm_mul", "unnorm_iszero", "unnorm_subsub"}, p \in FPairs(f) }
+  \* a well-formed w against the un-normalised difference x - y: w = x - y, and w one off
+  \cup UNION { { Sc("ff", f, "unnorm_subeq", <<>>, <<w, p[1], p[2]>>, <<>>) :
+                    w \in {SubM(p[1], p[2], M(f)), AddM(SubM(p[1], p[2], M(f)), One, M(f))} } : p \in FPairs(f) }
   \cup { Sc("ff", f, o, <<>>, <<a>>, <<>>) :
         o \in {"neg", "inv", "inv0", "square", "is_zero", "assert_non_zero", "pub", "assign_pub", "unnorm_bits"}, a \in FVals(f) }
   \cup { Sc("ff", f, o, <<c>>, <<a>>, <<>>) :
